@@ -76,3 +76,19 @@ package bulking
 //@   property C25 C28 C32 C38
 //@   ensures (err != nil) == !wfPostings(req.Postings)
 //@   ensures err == nil ==> r != nil && r.Runtime == req.Runtime && r.AccountMetadata == req.AccountMetadata && r.Timestamp == req.Timestamp && r.Reference == req.Reference
+
+// ---- text_stream.go: the script-stream parser runs in a goroutine of its own (no recover middleware): C38 -----------
+
+//@ assumed func strings.Split(s string, sep string) (r []string)
+//@   ensures sep != "" ==> len(r) >= 1
+//@   note strings documentation: with a non-empty separator the result has at least one element
+
+//@ func ParseTextStream(scanner *bufio.Scanner) (el *BulkElement, err error)
+//@   property C38
+//@   ensures err != nil ==> el == nil
+//@   loop 1:
+//@     invariant true
+//@   loop 2:
+//@     invariant true
+//@   loop 3:
+//@     invariant true
